@@ -22,7 +22,7 @@ static z_number tz(i128 v) {
   for (int i = 3; i >= 0; i--) r = r * base + z_number((long)(uint32_t)(m >> (32 * i)));
   return neg ? -r : r;
 }
-static i128 wz(const Wit &w, const std::string &p) { return (i128)(((u128)w.u(p + ".f0.a[0].f1") << 64) | (u128)w.u(p + ".f0.a[0].f0")); }
+static i128 wz(const Wit &w, const std::string &p) { return (i128)(((u128)w.u(p + ".f0.a.f1") << 64) | (u128)w.u(p + ".f0.a.f0")); }
 static RC mkc(const Wit &w, const char *n) {                 // raw object with exactly the witness fields
   RC c; std::string p(n);
   c.m_is_bottom = w.u(p + ".f0") != 0; c.m_a = tz(wz(w, p + ".f1")); c.m_b = tz(wz(w, p + ".f2"));
